@@ -43,6 +43,7 @@ def required_cells(tier):
 
 
 def cases(rng, budget, widx, nworkers, tier):
+    sm = lambda: tier == "quick" or rng.random() < 0.5      # thorough: half of the bodies from the full families (prisms, bipyramids, general hulls)
     i = widx
     while True:
         ka, kb = PAIRS[i % len(PAIRS)]
@@ -53,7 +54,7 @@ def cases(rng, budget, widx, nworkers, tier):
                 b = ("VEC", K.mul(a[1], rng.choice((2, -1, F(1, 2)))))
             label = "vectors"
         else:
-            (a, b), label = gen.gen_pair(rng, ka, kb, small=True)
+            (a, b), label = gen.gen_pair(rng, ka, kb, small=sm())
         heavy = "PH" in (ka, kb)
         perms = rng.sample(range(48), 3 if heavy else 8)
         for pi in perms:
